@@ -205,7 +205,7 @@ PAIRS = [("int", "int", list(BIN_OPS) + list(CMP_OPS)), ("int", "float", list(BI
          ("int", "bool", ["add", "sub", "mul", "eq", "ge"]), ("float", "float", list(BIN_OPS) + list(CMP_OPS)),
          ("str", "str", ["add", "eq", "ne", "lt", "ge"]), ("str", "int", ["mul"]), ("int", "str", ["mul"]),
          ("complex", "int", ["add", "sub", "mul", "truediv", "eq"]), ("date", "date", ["eq", "lt", "ge", "sub"]),
-         ("int", "complex", ["add", "mul"])]
+         ("int", "complex", ["add", "mul"]), ("dtsame", "dtsame", ["eq", "ne", "lt", "le", "gt", "ge", "sub"])]
 
 
 def operand_vals(tag, n, pal, side):
@@ -225,6 +225,10 @@ def operand_vals(tag, n, pal, side):
             out.append("s%d" % k if side == 0 else "t%d" % k)
         elif tag == "date":
             out.append(date(2020, 1, 1) + timedelta(days=k * (3 if side else 5)))
+        elif tag == "dtsame":
+            # timestamps of one calendar day; the two sides interleave, so ignoring the time of day changes every answer
+            from datetime import datetime as _dtm
+            out.append(_dtm(2021, 6, 1, 0, 0) + timedelta(minutes=(37 * k if side == 0 else 41 * k - 5 + (0 if i % 2 else 40))))
     return out
 
 
@@ -338,9 +342,13 @@ def replay_elem(cases, F, mon):
                     F.add("compare", c, list(r), [x == y for x, y in zip(lstr, rstr)], op="eq", tags=["str", "str"])
         # unary operators on the written-left operand (vector forms only)
         if mode == "vs":
-            for tag in ("int", "float", "bool", "complex"):
-                vals = operand_vals(tag, la, n_case % 3, 0)
+            for tag in ("int", "float", "bool", "complex", "mixi"):
+                vals = operand_vals(tag if tag != "mixi" else "int", la, n_case % 3, 0)
                 vals = [None if (i + 1) in na else (-x if (i % 2 and tag != "bool") else x) for i, x in enumerate(vals)]
+                if tag == "mixi":           # an int vector that also holds bools: +True is 1, -True is -1, abs(True) is 1
+                    vals = [(bool(i % 3) if (x is not None and i % 2 == 0) else x) for i, x in enumerate(vals)]
+                    if not any(isinstance(x, int) and not isinstance(x, bool) for x in vals):
+                        continue
                 for uname, ufn in UNARY.items():
                     v = Vector(list(vals), name="U")
                     before = vec_view(v)
@@ -937,6 +945,7 @@ def fplaws(out_path):
               "date": [_d(2020, 1, 1), _d(2020, 1, 2), _d(1, 1, 1), None],
               # object columns: unhashable cells are told apart by their contents, recursively
               "object": [{"a": 3, "b": 4}, {"a": 3, "b": 40}, {"a": 3}, {"b": 4, "a": 3, "c": None}, [1, 2], [1, 3], [1, [2, {"k": 1}]], [1, [2, {"k": 2}]],
+                         _d(2024, 1, 1), __import__("datetime").datetime(2024, 1, 1), __import__("datetime").datetime(2024, 1, 1, 0, 0, 1),
                          (1, 2), (9, 2), (1, (2, 3)), (1, (5, 3)), [9, 2], [[7, 1], 2], [[8, 1], 2], {1, 2}, {1, 3}, "x", None]}
 
     def unequal(x, y):
@@ -1047,6 +1056,19 @@ def casts(out_path):
             st, r, e = attempt(lambda: v.to_object())
             if st == "ok":
                 mon.see(r, "to_object()")
+    # values of numeric classes that are not built in (Fraction, Decimal): such a vector is not a float / int vector
+    from fractions import Fraction
+    from decimal import Decimal
+    for vals in ([Fraction(1, 2), Fraction(3, 4)], [Fraction(1, 2), None], [Decimal("1.5"), Decimal("2")], [Fraction(1, 2), 1], [1, Fraction(1, 2)], [Decimal("1.5"), 2.5]):
+        st, v, e = attempt(lambda: Vector(list(vals)))
+        ex += 1
+        if st != "ok":
+            continue
+        mon.see(v, "Vector of " + type(vals[0]).__name__)
+        for label, fn in (("v + v", lambda: v + v), ("v * 2", lambda: v * 2), ("v << [1]", lambda: v << [1]), ("fillna", lambda: v.fillna(Fraction(0))), ("v[0:1]", lambda: v[0:1])):
+            st, r, e = attempt(fn)
+            if st == "ok" and isinstance(r, Vector):
+                mon.see(r, label + " on a vector of " + type(vals[0]).__name__)
     json.dump({"executed": ex, "failures": F.items, "per_clause": F.per, "skipped": F.skipped, **mon.dump()}, open(out_path, "w"), default=str)
 
 
